@@ -277,6 +277,7 @@ class History(Profile):
                 chosen.append(rng.choices(sids, weights=[SOURCE_WEIGHT.get(x, 1) for x in sids])[0])
         handles = [f"g{i}" for i in range(n_grids)]
         menus = {sid: menu(sid) for sid in set(chosen)}
+        menu_keys = {sid: {key_of(o) for lst in m.values() for o in lst} for sid, m in menus.items()}
         # swarm: enabled classes
         classes = [c for c in CLASSES if rng.random() < 0.6 and c not in avoid.get("classes", [])]
         if not classes:
@@ -294,7 +295,11 @@ class History(Profile):
             prev = next((o for o in reversed(ops) if o.get("g") == h), None)
             fam = family_of(prev) if prev else None
             keyed = [revisit_key(o) for o in ops if o.get("g") == h and revisit_key(o) is not None]
-            if keyed and rng.random() < 0.2:
+            others = [o for o in ops if o.get("g") != h and o["op"] != "eq" and key_of(o) in menu_keys[sid]]
+            if others and rng.random() < 0.15:
+                # the very same request another grid of this process has just served (leaks between grids)
+                op = {k: v for k, v in rng.choice(others).items() if k not in ("g", "par", "threads")}
+            elif keyed and rng.random() < 0.2:
                 # the same request as an earlier step of this grid (maybe with other cache flags)
                 op = dict(rng.choice(same_key_ops(menus[sid], rng.choice(keyed))))
             elif fam and rng.random() < 0.3:
